@@ -169,8 +169,9 @@ _MODS = {}
 
 def _worker(job):
     from . import report as _report
-    js, cname, tier, what, offs = job
-    r = _report.Report("C08", tier)
+    js, cname, tier, what, offs = job[:5]
+    rid2 = job[5] if len(job) > 5 else "C08.D2"
+    r = _report.Report(rid2[:3], tier)
     r._known = []
     m = _MODS.get(js)
     if m is None:
@@ -184,7 +185,7 @@ def _worker(job):
             rule_rounds(r, m, cname)
             rule_copy_init(r, m, cname)
         else:
-            rule_byteops(r, m, cname, tier, offs)
+            rule_byteops(r, m, cname, tier, offs, rid=rid2)
     except repo.AnalysisBroken as e:
         r.broken.append(str(e))
     return r.export()
@@ -345,8 +346,7 @@ def _is_cast_of(f, v, src):
 
 
 # ---------------------------------------------------------------------------
-def rule_byteops(rep, m, cname, tier, offsets=None):
-    rid = "C08.D2"
+def rule_byteops(rep, m, cname, tier, offsets=None, rid="C08.D2"):
     need = ["ascon_add_bytes", "ascon_overwrite_bytes", "ascon_overwrite_with_zeroes", "ascon_extract_bytes",
             "ascon_extract_and_add_bytes", "ascon_extract_and_overwrite_bytes"]
     for n in need:
